@@ -45,6 +45,10 @@ CLAIMS = {
   text="Proof of the inductive step of the key-count bound and of the idleness direction: evictKeyWithLRU samples between 1 and LRUSamples present keys whenever the fragment is not empty (callback iteration modelled as a loop over the literal's body, so a Put never fails for lack of a victim), orders them by last access (sort.Slice ordered by the verified less contract) and evicts the least recently used of the samples, removing exactly one key and touching nothing else; setLRUEvictionStats leaves a fragment that was within its share max(1, MaxKeys/owned) strictly below it (and never calls eviction on an empty fragment); putOnCluster (single-copy path) therefore keeps the fragment within its share after every Put, and the key just written is present; isKeyIdleOnFragment reports idle only when a full idle window has elapsed since the last access and does report it once the window has elapsed.",
   note="The byte bound (MaxInuse with equally sized entries) is not decided (needs the engine's size accounting at the abstract level); stable membership is assumed (ownedPartitionCount constant across the call); deleteOnCluster is trusted for its effect on the local fragment; the background eviction worker (scanFragmentForEviction) and 'eventually disappears' (liveness) are not decided; storage.Engine.Range/Stats are assumed abstract contracts.",
   ref="DESIGN.md §4 C10, §9"),
+ "C12": dict(
+  text="Proof of the store-level scan cursor: findCoefficient returns the smallest coefficient present that is greater than the given one and an error iff none is (map iteration + sort.Slice ordered by the verified less contract + scan loop, with invariants); one step of KVStore.Scan/ScanRegexMatch (scanCommon) hands back a cursor that addresses an existing table, never jumps over a table that has not been scanned (for every layout of coefficients with holes), never moves backwards, and reports the end only when no later table exists; unsigned cursor arithmetic is exact (no wrap) for table sizes up to 2^32 and coefficients below 2^30.",
+  note="table.Scan/ScanRegexMatch (the roaring-bitmap iterator loop inside one table) are trusted for the range of the cursor they return; that every present key is handed to the callback exactly once within a table, the partition-level iterator of DMap.Scan and the cluster iterator are not yet under contract; concurrent writers during a scan are not modelled.",
+  ref="DESIGN.md §4 C12, §9"),
 }
 
 NA_DEFAULT = "contract-decidable core not yet under contract in this tree (engine and storage layers first); no other technique substituted"
